@@ -36,6 +36,7 @@ type World struct {
 	addrTaken map[*ssa.Function]bool
 	NPkgsTotal int
 	lockInfo   *LockInfo
+	lua        map[string]*luaScript
 	Ext        map[string]*packages.Package // every loaded package by path (dependencies included)
 }
 
